@@ -29,6 +29,7 @@ def module(rng, i):
         elif k < 0.92: extra.append(("opaque", "struct Opaque%d;\n" % j))      # a structure without body (opaque)
         else: extra.append(("import", 'import "other%d.pn";\n' % j))
     if rng.random() < 0.3: extra.append(("opaque", "struct Handle;\n"))
+    for j2 in range(rng.choice([0, 0, 1, 2])): extra.append(("import", 'import "late%d.pn";\n' % j2))      # (the header keeps the order of the source)
     if rng.random() < 0.2: extra.append(("fnhead", "fn declared_only(a: i32) -> i32;\n"))
     if rng.random() < 0.2: extra.append(("struct", "struct Empty\n{\n}\n"))
     for name, params, ret, body, result, _ in p["funcs"]:
@@ -104,6 +105,11 @@ def run(tier):
         if len(hdecls) != npub:
             mism += 1
             ck.violation("wrong-declaration-count", "header has %d declarations, the module has %d pub declarations" % (len(hdecls), npub), "source:\n%s" % src)
+        try: hd = [int(x) for x in hdecls]
+        except Exception: hd = None
+        if hd is not None and hd != sorted(hd):
+            mism += 1
+            ck.violation("wrong-declaration-order", "the header lists its declarations in another order than the source (node indices %s)" % hd, "source:\n%s\nheader: %s" % (src, f[3][:3000] if False else hm[:2000]))
         if mh != hm:
             mism += 1
             if st.get("spec_eq") == "true":
